@@ -324,6 +324,7 @@ class CFG:
             if f_out:
                 fail = ast.copy_location(ast.Raise(exc=ast.Call(func=ast.Name(id="AssertionError", ctx=ast.Load()), args=[], keywords=[]), cause=None), st)
                 ast.fix_missing_locations(fail)
+                fail._mdsa_assert = st  # synthetic: the failing side of an assert
                 fn = self._new("stmt", fail, [])
                 self._link(f_out, fn.idx)
                 for tgt in self._exc_targets(ctx):
